@@ -73,7 +73,13 @@ def gen_items(rng, depth, budget):
     elif r < 0.56 and depth < 4:
       items.append({'k': 'catch', 'body': gen_items(rng, depth, budget)})
     elif depth < 4:
-      items.append({'k': 'block', 'arg': gen_arg(rng), 'body': gen_items(rng, depth + 1, budget)})
+      arg = gen_arg(rng)
+      item = {'k': 'block', 'arg': arg, 'body': gen_items(rng, depth + 1, budget)}
+      if arg['k'] == 'name' and depth >= 1 and rng.random() < 0.3:
+        # the context-manager object is created when the thread starts (top level) and entered here:
+        # a named scope extends the scope active *when the block is entered*
+        item['_early'] = True
+      items.append(item)
     else:
       items.append({'k': 'obs'})
   return items
@@ -191,6 +197,15 @@ def run_impl(case):
     return a.get('v', 42)
 
   def worker(tid):
+    early = {}
+
+    def precreate(items):
+      for it in items:
+        if it['k'] == 'block' and it.get('_early'):
+          early[id(it)] = gin.config_scope(scope_arg(it['arg']))
+        if it['k'] in ('block', 'catch'):
+          precreate(it['body'])
+    precreate(case['threads'][tid])
     obs = []
     fobs = []            # what the handle fetched at the previous observation point receives here
     handle = [None]
@@ -216,7 +231,7 @@ def run_impl(case):
         elif it['k'] == 'raise':
           raise (Interrupt() if it.get('base') else Boom())
         else:
-          with gin.config_scope(scope_arg(it['arg'])):
+          with (early.pop(id(it)) if id(it) in early else gin.config_scope(scope_arg(it['arg']))):
             run(it['body'])
             st.checkpoint(tid)
     try:
